@@ -201,8 +201,12 @@ def match_known(prop, v, known):
     return None
 
 
+TIER = "quick"
+
+
 def launch(cdir, job, idx, subseed, budget_ms, outdir, replay=None, max_runs=0):
     env = go_env()
+    job = dict(job, cfg=dict(job.get("cfg", {}), tier=TIER))
     out = os.path.join(outdir, "w%03d.json" % idx)
     env.update({
         "VERIF_SUBSEED": str(subseed), "VERIF_BUDGET_MS": str(budget_ms), "VERIF_OUT": out,
@@ -249,6 +253,8 @@ def main():
             infra("unknown argument " + args[i])
     if tier not in ("quick", "thorough"):
         tier = "quick"
+    global TIER
+    TIER = tier
     if prop not in CHECKS:
         infra("unknown property " + prop)
     spec = CHECKS[prop]
